@@ -18,6 +18,8 @@ import (
 	"sort"
 	"strings"
 	"sync"
+	"sync/atomic"
+	"time"
 
 	"github.com/syndtr/goleveldb/leveldb/memdb"
 	"verifharness/lib/vlib"
@@ -58,8 +60,12 @@ func countStats(res *vlib.Result, s runStats) {
 // shrink: delta-debugging on the op list (remove chunks while the program still fails)
 func shrink(p Program) Program {
 	fails := func(q Program) bool { f, _, _, _ := execProgram(q, false); return f != "" }
-	if f, at, _, _ := execProgram(p, false); f != "" && at >= 0 && at+1 < len(p.Ops) {
+	f, at, _, _ := execProgram(p, false)
+	if f != "" && at >= 0 && at+1 < len(p.Ops) {
 		p.Ops = p.Ops[:at+1]
+	}
+	if strings.Contains(f, "loops forever") {
+		return p // every further attempt would leave another goroutine spinning
 	}
 	for chunk := len(p.Ops) / 2; chunk >= 1; chunk /= 2 {
 		for i := 0; i+chunk <= len(p.Ops); {
@@ -164,13 +170,15 @@ func main() {
 	}
 
 	type outcome struct {
-		fail  string
-		coq   string
-		st    runStats
-		cmp   int
-		nops  int
-		first []Op
+		fail    string
+		coq     string
+		st      runStats
+		cmp     int
+		nops    int
+		first   []Op
+		skipped bool
 	}
+	var nFailed int32
 	outs := make([]outcome, len(jobs))
 	var wg sync.WaitGroup
 	sem := make(chan struct{}, 16)
@@ -181,6 +189,10 @@ func main() {
 			defer wg.Done()
 			defer func() { <-sem }()
 			j := jobs[i]
+			if atomic.LoadInt32(&nFailed) >= 8 {
+				outs[i].skipped = true
+				return
+			}
 			j.p = genProgram(j.rng, j.cfg, j.cmp)
 			if j.final {
 				j.p.Ops = append(j.p.Ops, mkOp(oLen), mkOp(oSize), mkOp(oUsed), mkOp(oDump))
@@ -193,12 +205,19 @@ func main() {
 			}
 			if f == "" {
 				j.p = Program{} // keep only failing programs
+			} else if strings.Contains(f, "loops forever") {
+				atomic.AddInt32(&nFailed, 8)
+			} else {
+				atomic.AddInt32(&nFailed, 1)
 			}
 		}(i)
 	}
 	wg.Wait()
 	var cases []string
 	for i, o := range outs {
+		if o.skipped {
+			continue
+		}
 		if o.fail != "" {
 			if res.NViolations() < 5 {
 				small := shrink(jobs[i].p)
@@ -238,6 +257,9 @@ func main() {
 		go func(cfg concCfg) {
 			defer cwg.Done()
 			defer func() { <-csem }()
+			if res.NViolations() > 0 {
+				return // something already failed: do not spend the watchdog budget on every round
+			}
 			if f := runConc(cfg, &cst); f != "" {
 				cmu.Lock()
 				res.Violate("concurrent: "+f, map[string]interface{}{"kind": "conc", "conc": cfg})
@@ -302,6 +324,15 @@ func writeShards(res *vlib.Result, out string, bal [][]string) {
 // model and the theorems exclude it, the DB itself never does it (it resets a memdb only when no
 // reference is left).
 func probeMisuse(res *vlib.Result) {
+	done := make(chan struct{})
+	go func() { probeMisuseRaw(res); close(done) }()
+	select {
+	case <-done:
+	case <-time.After(10 * time.Second):
+	}
+}
+
+func probeMisuseRaw(res *vlib.Result) {
 	defer func() {
 		if e := recover(); e != nil {
 			res.Extra["iterator_used_after_Reset"] = fmt.Sprintf("panics: %v", e)
